@@ -75,7 +75,7 @@ fn main() {
                     *failed = Some(("get through the overlay differs from the database with the commits applied".into(),
                         json!({"pk": pk_coq(pk), "sk": hex(sk), "overlay": got.as_ref().map(|v| hex(v)), "direct": want.as_ref().map(|v| hex(v)), "replay": want2.as_ref().map(|v| hex(v))})));
                 }
-                ops.push(format!("OGet {} {} {}", pk_coq(pk), coq_bytes(sk), coq_option(got.map(|v| coq_bytes(&v)))));
+                ops.push(format!("OGet {} {} {}", pk_coq(pk), cb(sk), coq_option(got.map(|v| cb(&v)))));
             }
             if let Some(cur) = cur {
                 let got = collect_list(overlay, pk, cur);
